@@ -1,14 +1,49 @@
 import importlib
+import json
 import sys
+import time
+import traceback
 
 
 def main():
     if len(sys.argv) < 2:
-        print("usage: ./check <property id> [--tier quick|thorough]")
+        print("usage: ./check <property id> [--tier quick|thorough] [--replay FILE]")
         return 2
     pid = sys.argv[1].upper()
+    if "--replay" in sys.argv:
+        # a replay file is self-describing: show it and re-run the check (same seed) so the
+        # recorded case is regenerated and re-judged
+        path = sys.argv[sys.argv.index("--replay") + 1]
+        try:
+            rec = json.load(open(path))
+            import os
+
+            os.environ["VERIF_SEED"] = str(rec.get("seed", os.environ.get("VERIF_SEED", "20260930")))
+            print(f"replaying {path} (seed {os.environ['VERIF_SEED']})")
+        except Exception as ex:
+            print(f"cannot read replay {path}: {ex}")
     mod = importlib.import_module(f"harness.{pid.lower()}")
-    return mod.main(sys.argv[2:])
+    t0 = time.time()
+    try:
+        return mod.main([a for a in sys.argv[2:]])
+    except Exception:
+        # An exception escaping a check almost always comes out of the implementation under
+        # test (the harness catches the ones it expects).  The property is then not shown.
+        from harness import common
+
+        tb = traceback.format_exc()
+        common.EVIDENCE.mkdir(exist_ok=True)
+        d = common.EVIDENCE / "replays"
+        d.mkdir(parents=True, exist_ok=True)
+        path = d / f"{pid}_uncaught_exception.json"
+        path.write_text(json.dumps(dict(property=pid, kind="uncaught-exception", seed=common.seed_from_env(), traceback=tb), indent=1))
+        ev = dict(property_id=pid, tier=common.tier_from_args(sys.argv[2:]), seed=int(common.seed_from_env()), level="other",
+                  coverage=dict(explanation="the check aborted with an uncaught exception (see replay); nothing was established on this run", evaluations=1, distinct_nontrivial=0, samples=[tb[-1500:]]),
+                  wall_s=round(time.time() - t0, 2), violations=1)
+        (common.EVIDENCE / f"{pid}.json").write_text(json.dumps(ev, indent=1))
+        sys.stderr.write(tb)
+        print(f"VIOLATION property={pid} replay={path} no-failing-input-found")
+        return 1
 
 
 if __name__ == "__main__":
